@@ -917,6 +917,7 @@ func runC16(c *hc.Ctx) error {
 		"creasty/defaults: the structs carry no default tags, Set is a no-op",
 		"encoding/json Marshal: struct member order, omitempty (empty string, nil or empty slice, nil pointer), map keys sorted bytewise, orderedAxes has no omitempty (null when nil); HTML escaping and invalid UTF-8 replacement are outside the model (generated strings avoid <, >, & and are valid UTF-8)",
 		"regexp semantics of crsURIRegexURL / crsURIRegexURN modelled by splitting at '/' resp. ':'",
+		"source ties C16_source_tie_* (translator/tmsjson.go -> gen/TmsJsonGen.v, reading of the Go constructs in Tms/GoJson.v): the project's own code around the libraries -- checkUnsignedIntegers, TwoDPoint / TileMatrix .UnmarshalJSONFromMap, unmarshalTileMatrices, unmarshalCRS and the three CRS types (decode and MarshalJSON), TwoDBoundingBox and TileMatrixSet UnmarshalJSON / MarshalJSON -- is regenerated statement by statement on every run and proved equal to the model's functions for every input; the library calls themselves are mapped to the model after checking their exact shape in the AST (list at the top of gen/TmsJsonGen.v)",
 	}
 	c.Sum.Assumptions = []string{"documents are JSON trees with finite depth; numbers with exponents of moderate size (|e| <= 400)"}
 
